@@ -13,6 +13,7 @@ from .. import arr as A
 from ..poly import Poly, as_poly
 from ..report import Finding
 from .common import *
+from ..shims import Device
 
 
 def worker(job):
@@ -45,7 +46,7 @@ def _worker(it, w, L, B, sets, ndev, keyed, explicit_devices, single, concrete):
     from ..shims import Key
 
     key = Key(0) if keyed else None
-    devs = ["d%d" % i for i in range(ndev)] if explicit_devices else None
+    devs = [Device(i) for i in range(ndev)] if explicit_devices else None
     cfg = dict(L=L, B=B, type_sets=[[list(t) for t in s] for s in sets], devices=ndev, key=("opaque" if concrete is None else "permutation %s" % list(concrete)) if keyed else None, explicit_devices=explicit_devices, single_image_argument=single)
     del w.trace[:]
     arg = images[0] if single else tuple(images)
